@@ -5,7 +5,7 @@ import numpy as np
 import impl, gen, evalutil as E
 from common import same_value
 
-RULE = ("random edge-case handlers (per metric 4 scenario values drawn without replacement from the 5 possible results, "
+RULE = ("half of the cases on long-lived evaluators that see the four scenarios in random order; random edge-case handlers (per metric 4 scenario values drawn without replacement from the 5 possible results, "
         "random empty-list value) x scenario {no instances, empty prediction, empty reference, instances without a match} "
         "x input type {SEMANTIC, UNMATCHED, MATCHED} x metric selections; plus tp>0 cases under two different handlers; "
         "non-trivial = handler with pairwise distinct scenario values for some evaluated metric and a zero-TP scenario")
@@ -57,9 +57,10 @@ def scenario_arrays(rng, scen, input_type):
     return p, r
 
 
-def one_case(ctx, pred, ref, cfg, scen, src):
-    inp = {"shape": list(pred.shape), "pred": gen.arr_json(pred), "ref": gen.arr_json(ref), "cfg": cfg, "scenario": scen, "src": src}
-    res = E.run_impl(cfg, pred, ref)
+def one_case(ctx, pred, ref, cfg, scen, src, evaluator=None, history=None):
+    inp = {"shape": list(pred.shape), "pred": gen.arr_json(pred), "ref": gen.arr_json(ref), "cfg": cfg, "scenario": scen, "src": src,
+           "history": history or []}
+    res = E.run_impl(cfg, pred, ref, evaluator=evaluator)
     h = {m: z for m, z in cfg["handler"]["table"]}
     distinct = any(len(set(h[m].values())) == 4 for m in cfg["eval_metrics"] if m in h)
     ctx.case(inp, distinct and scen != "TP", sample={k: inp[k] for k in ("shape", "pred", "ref", "scenario")} | {"handler": cfg["handler"]} if pred.size <= 30 else None)
@@ -113,7 +114,23 @@ def run_cases(ctx, n, tag):
             continue
         cfg = E.mk_cfg(it, metrics, matcher=E.naive("IOU", (1, 2)) if it != "MATCHED" else None, handler=hnd,
                        backend=rng.choice([None, "cc3d", "scipy"]) if it == "SEMANTIC" else None)
-        one_case(ctx, arrs[0], arrs[1], cfg, scen, f"{tag}{i}")
+        if rng.random() < 0.5:
+            one_case(ctx, arrs[0], arrs[1], cfg, scen, f"{tag}{i}")
+        else:
+            # a long-lived evaluator (and handler object) sees several scenarios in sequence
+            with impl.quiet():
+                ev = impl.mk_evaluator(cfg)
+            hist = []
+            order = ["NO_INSTANCES", "EMPTY_PRED", "EMPTY_REF", "NORMAL"]
+            rng.shuffle(order)
+            for sc in order:
+                a2 = scenario_arrays(rng, sc, it)
+                if a2 is None:
+                    continue
+                one_case(ctx, a2[0], a2[1], cfg, sc, f"{tag}{i}.seq", evaluator=ev,
+                         history=list(hist))
+                hist.append([sc, gen.arr_json(a2[0]), gen.arr_json(a2[1]), list(a2[0].shape)])
+            ctx.count("shared_evaluator_sequences")
         if rng.random() < 0.25:
             # tp > 0: the handler has no influence
             pred, ref = gen.pair(rng, hi=6, max_obj=3, allow_empty=False)
@@ -139,5 +156,11 @@ def search(ctx):
 
 def replay(ctx, rec):
     i = rec["input"]
+    ev = None
+    if i.get("history"):
+        with impl.quiet():
+            ev = impl.mk_evaluator(i["cfg"])
+        for sc, p, r, sh in i["history"]:
+            E.run_impl(i["cfg"], np.array(p, dtype=np.uint8).reshape(sh), np.array(r, dtype=np.uint8).reshape(sh), evaluator=ev)
     one_case(ctx, np.array(i["pred"], dtype=np.uint8).reshape(i["shape"]), np.array(i["ref"], dtype=np.uint8).reshape(i["shape"]),
-             i["cfg"], i["scenario"], "replay")
+             i["cfg"], i["scenario"], "replay", evaluator=ev)
